@@ -202,7 +202,7 @@ def check_item(item):
     ladder = set()
 
     def ladder_for(sentinels):
-        lad = [{}]
+        lad = [{}, {'relativize_int': True}]
         if sentinels:
             lad.append({'concrete_numerals': True})
         lad.append({'abstract_order': True})
